@@ -5266,7 +5266,13 @@ def _match_str(pat: str, tgt: _Targets, mstate: _MatchState) -> Mapping[str, Any
 
     elif isinstance(tgt, FSTView):
         if tgt.src != pat:
-            return None
+            if tgt.__class__ is not FSTView_Global_Nonlocal:
+                return None
+
+            start, stop = tgt.start_and_stop  # view of identifier strings, the value in the AST is the source identifier NFKC normalized and a pattern which comes from an AST has that
+
+            if stop - start != 1 or tgt.base.a.names[start] != pat:
+                return None
 
     else:
         return None
